@@ -244,3 +244,268 @@ Fixpoint escape_nl (l : str) : str :=
 
 (* well-formedness of accepted tags *)
 Definition good_tag (t : str) : Prop := t <> [] /\ ~ In c_comma t /\ ~ In c_pipe t.
+
+(* ======================================================================================== *)
+(* The EXACT accepted language (lines without NUL).
+
+   The lexer's slack beyond the documented grammar is only in what an ignored field may be:
+   it is recognised by its FIRST byte alone, so an EMPTY field takes the '|' that ends it as that
+   first byte and skips the field after it; and an empty field may end the line (trailing '|').
+   Both are "other" fields of the same rendering function under a weaker side condition:
+   [AOther (c_pipe :: g)] is an empty field followed by the swallowed field [g], [AOther []] is
+   the empty field after a trailing '|' (last position only). *)
+
+Definition is_nil {A} (l : list A) : bool := match l with [] => true | _ => false end.
+
+Definition wf_attr' (last : bool) (a : attr) : Prop :=
+  match a with
+  | ARate s => ~ In c_pipe s
+  | ATags ts => Forall wf_tag ts
+  | AOther s =>
+      match s with
+      | [] => last = true
+      | b :: r => b <> c_at /\ b <> c_hash /\ ~ In c_pipe r          (* b may be '|' *)
+      end
+  end.
+
+Fixpoint wf_attrs' (l : list attr) : Prop :=
+  match l with
+  | [] => True
+  | a :: r => wf_attr' (is_nil r) a /\ wf_attrs' r
+  end.
+
+(* same rendering; the generalisation is [wf_attrs'] instead of [Forall wf_attr] *)
+Definition render_metric' (raw val : str) (ty : tytok) (attrs : list attr) : str :=
+  render_metric raw val ty attrs.
+
+(* events: the numeral after "d:" is accumulated in uint64 and the overflow test [n < v] of
+   lexUint misses some wrap-arounds, so what the date "is" is this accumulation *)
+Definition wrap_step (v b : N) : N := (v * 10 + (b - c_0)) mod two64.
+
+Fixpoint uint_acc (v : N) (ds : str) : option N :=
+  match ds with
+  | [] => Some v
+  | b :: r => let n := wrap_step v b in if n <? v then None else uint_acc n r
+  end.
+
+Definition date_value (ds : str) : N := match uint_acc 0 ds with Some v => v | None => 0 end.
+
+Definition wf_eattr' (last : bool) (a : eattr) : Prop :=
+  match a with
+  | EADate ds => is_number ds /\ exists v, uint_acc 0 ds = Some v /\ v <= max_int64
+  | EAHost s | EAKey s | EASrc s => ~ In c_pipe s
+  | EAPri _ | EAAlert _ => True
+  | EATags ts => Forall wf_tag ts
+  | EAOther s =>
+      match s with
+      | [] => last = true
+      | b :: r => b <> c_hash /\ b <> c_d /\ is_field_key b = false /\ ~ In c_pipe r   (* b may be '|' *)
+      end
+  end.
+
+Fixpoint wf_eattrs' (l : list eattr) : Prop :=
+  match l with
+  | [] => True
+  | a :: r => wf_eattr' (is_nil r) a /\ wf_eattrs' r
+  end.
+
+Definition apply_eattr' (e : event) (a : eattr) : event :=
+  match a with
+  | EADate ds => set_date_z e (Z.of_N (date_value ds))
+  | _ => apply_eattr e a
+  end.
+
+Definition expected_event' (title text : str) (attrs : list eattr) : event :=
+  with_tags (fold_left apply_eattr' attrs (empty_event title (unescape text))) (eattrs_tags attrs).
+
+Definition render_event' (dt dx title text : str) (attrs : list eattr) : str :=
+  render_event_digits dt dx title text attrs.
+
+(* header side condition: the two numerals denote the lengths *)
+Definition wf_event_header (dt dx title text : str) : Prop :=
+  is_number dt /\ digit_value dt = N.of_nat (length title) /\ N.of_nat (length title) <= max_uint32 /\
+  is_number dx /\ digit_value dx = N.of_nat (length text) /\ N.of_nat (length text) <= max_uint32.
+
+(* ---------------------------------------------------------------------------------------- *)
+(* parse_to_spec: the derivation of a line, computed without the lexer's state machine (split
+   at the first ':' / '|', split the rest at every '|').  Proofs/LexerGrammarExact*.v:
+   [parse_to_spec l = Some s -> render_spec s = l], and every accepted NUL-free line parses. *)
+
+Inductive spec :=
+| SMetric (raw val : str) (ty : tytok) (attrs : list attr)
+| SEvent (dt dx title text : str) (attrs : list eattr).
+
+Definition render_spec (s : spec) : str :=
+  match s with
+  | SMetric raw val ty attrs => render_metric' raw val ty attrs
+  | SEvent dt dx title text attrs => render_event' dt dx title text attrs
+  end.
+
+Fixpoint split_first (c : N) (l : str) : option (str * str) :=
+  match l with
+  | [] => None
+  | b :: r =>
+      if b =? c then Some ([], r)
+      else match split_first c r with Some (u, r') => Some (b :: u, r') | None => None end
+  end.
+
+(* all the fields between separators [c]; never the empty list *)
+Fixpoint split_all (c : N) (l : str) : list str :=
+  match l with
+  | [] => [[]]
+  | b :: r =>
+      if b =? c then [] :: split_all c r
+      else match split_all c r with f :: fs => (b :: f) :: fs | [] => [[b]] end
+  end.
+
+Definition parse_type (l : str) : option (tytok * str) :=
+  match l with
+  | [] => None
+  | b :: r =>
+      if b =? c_c then Some (TokC, r)
+      else if b =? c_g then Some (TokG, r)
+      else if b =? c_m then
+        match r with b2 :: r2 => if b2 =? c_s then Some (TokMs, r2) else None | [] => None end
+      else if b =? c_h then Some (TokH, r)
+      else if b =? c_s then Some (TokS, r)
+      else None
+  end.
+
+Fixpoint fields_to_attrs (fs : list str) : list attr :=
+  match fs with
+  | [] => []
+  | f :: rest =>
+      match f with
+      | [] => match rest with
+              | [] => [AOther []]
+              | g :: rest' => AOther (c_pipe :: g) :: fields_to_attrs rest'
+              end
+      | b :: r =>
+          (if b =? c_at then ARate r
+           else if b =? c_hash then ATags (split_all c_comma r)
+           else AOther f) :: fields_to_attrs rest
+      end
+  end.
+
+Definition parse_metric (l : str) : option spec :=
+  match split_first c_colon l with
+  | None => None
+  | Some (raw, r1) =>
+      match split_first c_pipe r1 with
+      | None => None
+      | Some (val, r2) =>
+          match parse_type r2 with
+          | None => None
+          | Some (ty, r3) =>
+              match r3 with
+              | [] => Some (SMetric raw val ty [])
+              | b :: x => if b =? c_pipe
+                          then Some (SMetric raw val ty (fields_to_attrs (split_all c_pipe x)))
+                          else None
+              end
+          end
+      end
+  end.
+
+Fixpoint span_digits (l : str) : str * str :=
+  match l with
+  | [] => ([], [])
+  | b :: r => if is_digit b then let (d, k) := span_digits r in (b :: d, k) else ([], l)
+  end.
+
+Definition expect (c : N) (l : str) : option str :=
+  match l with b :: r => if b =? c then Some r else None | [] => None end.
+
+(* a numeral, its value (bounded by [bound]) and the rest *)
+Definition parse_num (bound : N) (l : str) : option (str * N * str) :=
+  let (ds, k) := span_digits l in
+  if nonempty ds then
+    match uint_acc 0 ds with
+    | Some v => if v <=? bound then Some (ds, v, k) else None
+    | None => None
+    end
+  else None.
+
+Definition alert_of (s : str) : option alert :=
+  if str_eqb s str_error then Some AError
+  else if str_eqb s str_warning then Some AWarning
+  else if str_eqb s str_success then Some ASuccess
+  else if str_eqb s str_info then Some AInfo
+  else None.
+
+(* the non-empty field b :: r *)
+Definition field_to_eattr (b : N) (r : str) : option eattr :=
+  if b =? c_hash then Some (EATags (split_all c_comma r))
+  else if (b =? c_d) || is_field_key b then
+    match r with
+    | [] => None
+    | c :: data =>
+        if negb (c =? c_colon) then None
+        else if b =? c_d then
+          match parse_num max_int64 data with
+          | Some (_, _, []) => Some (EADate data)
+          | _ => None
+          end
+        else if b =? c_h then Some (EAHost data)
+        else if b =? c_k then Some (EAKey data)
+        else if b =? c_s then Some (EASrc data)
+        else if b =? c_p then
+          if str_eqb data str_low then Some (EAPri true)
+          else if str_eqb data str_normal then Some (EAPri false)
+          else None
+        else option_map EAAlert (alert_of data)
+    end
+  else Some (EAOther (b :: r)).
+
+Fixpoint fields_to_eattrs (fs : list str) : option (list eattr) :=
+  match fs with
+  | [] => Some []
+  | f :: rest =>
+      match f with
+      | [] => match rest with
+              | [] => Some [EAOther []]
+              | g :: rest' => option_map (cons (EAOther (c_pipe :: g))) (fields_to_eattrs rest')
+              end
+      | b :: r =>
+          match field_to_eattr b r, fields_to_eattrs rest with
+          | Some a, Some l => Some (a :: l)
+          | _, _ => None
+          end
+      end
+  end.
+
+(* [r0]: the line after "_e" *)
+Definition parse_event (r0 : str) : option spec :=
+  match expect c_lbrace r0 with None => None | Some r1 =>
+  match parse_num max_uint32 r1 with None => None | Some (dt, tl, r2) =>
+  match expect c_comma r2 with None => None | Some r3 =>
+  match parse_num max_uint32 r3 with None => None | Some (dx, xl, r4) =>
+  match expect c_rbrace r4 with None => None | Some r5 =>
+  match expect c_colon r5 with None => None | Some r6 =>
+  if N.of_nat (length r6) <? tl + 1 + xl then None else
+  match nth_error r6 (N.to_nat tl) with
+  | None => None
+  | Some b =>
+      if negb (b =? c_pipe) then None else
+      let title := firstn (N.to_nat tl) r6 in
+      let text := firstn (N.to_nat xl) (skipn (N.to_nat (tl + 1)) r6) in
+      match skipn (N.to_nat (tl + 1 + xl)) r6 with
+      | [] => Some (SEvent dt dx title text [])
+      | b7 :: x =>
+          if b7 =? c_pipe
+          then option_map (SEvent dt dx title text) (fields_to_eattrs (split_all c_pipe x))
+          else None
+      end
+  end end end end end end end.
+
+Definition parse_to_spec (l : str) : option spec :=
+  match l with
+  | [] => None
+  | b :: r =>
+      if b =? c_us then
+        match r with
+        | b2 :: r0 => if b2 =? c_e then parse_event r0 else None
+        | [] => None
+        end
+      else parse_metric l
+  end.
